@@ -179,7 +179,8 @@ func runCell(c Cell, x *ev.Ctx) error {
 	parties := world.NewOCSPParties(name, ca, leaf)
 	switch c.OCSP {
 	case "good", "revoked":
-		world.NewResponder(ocspOrigin, "/ocsp", parties, world.OCSPAnswer{Kind: c.OCSP})
+		// every other revoked answer carries a revocationTime a few hours ahead of the local clock
+		world.NewResponder(ocspOrigin, "/ocsp", parties, world.OCSPAnswer{Kind: c.OCSP, RevokedAtFuture: c.OCSP == "revoked" && id%2 == 0})
 	case "unavailable":
 		k := "http500"
 		if c.Unavail == "garbage" {
